@@ -79,6 +79,53 @@ func runC18(env *Env, data map[string]any) *Outcome {
 			o.Findings = append(o.Findings, Finding{Kind: "K", What: "K.C18.strip: StripAllAnsiSequences differs from the model", Impl: impl, Model: model})
 		}
 	}
+	// K: the table renderer (random cells with and without sequences, both alignments, fill cells)
+	{
+		r := NewRand(int64(len(text))*7919+int64(len(textOf(data, "frag"))), "C18-table", 0)
+		ncols := r.Range(2, 5)
+		nrows := r.Range(1, 5)
+		table := tf.NewTable(ncols, " ")
+		args := []string{"table", fmt.Sprint(ncols), hx(" ")}
+		for i := 0; i < ncols*nrows; i++ {
+			var v strings.Builder
+			for k := r.Range(0, 4); k > 0; k-- {
+				v.WriteString(Pick(r, []string{"a", "bc", "ä", "日本", "12", "\x1b[0m", "\x1b[38;5;120m", "\x1b[1m", "#t", "-", "x y"}))
+			}
+			val := v.String()
+			switch r.Weighted(4, 4, 1, 1) {
+			case 0:
+				table.CellL(val)
+				args = append(args, hx(val)+":0:0")
+			case 1:
+				table.CellR(val)
+				args = append(args, hx(val)+":0:1")
+			case 2:
+				table.Skip(1)
+				args = append(args, "-:0:0")
+			default:
+				table.Fill("=")
+				args = append(args, hx("=")+":1:0")
+			}
+		}
+		var out strings.Builder
+		table.Collect(func(s string) { out.WriteString(s) })
+		impl := "ok " + hx(out.String())
+		model := env.Drv.Ask(args...)
+		o.Evals++
+		if impl != model {
+			o.Findings = append(o.Findings, Finding{Kind: "K", What: "K.C18.table: tf.Table output differs from the model", Impl: impl, Model: model})
+		}
+		// D on the real table: all rows have the same visible width
+		w := -1
+		for _, l := range strings.Split(strings.TrimSuffix(tf.StripAllAnsiSequences(out.String()), "\n"), "\n") {
+			n := utf8.RuneCountInString(l)
+			if w >= 0 && n != w {
+				o.Findings = append(o.Findings, Finding{Kind: "D", What: "tf.Table: rows have different numbers of visible characters", Impl: out.String()})
+				break
+			}
+			w = n
+		}
+	}
 	file := writeFile(env, "c18.klg", text)
 	parsed, _ := implParse(text)
 	if !strings.HasPrefix(parsed, "records ") {
